@@ -604,7 +604,7 @@ class ParallelTemperedChain(BaseChain):
                 chain._blobs[ii] = new_blobs[tk]
             # Reset adaptation for swapped proposals
             if self.reset_after_swap and tk != swap_index[tk]:
-                chain._reset_proposals()
+                chain.reset_proposals()
 
         # with two temperatures there is a single pair, and the scratch space
         # is one dimensional, so store a scalar
